@@ -39,6 +39,13 @@ PROJECTS = {
     "glob_missing": ("f_glob", {"nest": 1}),
     "glob_deep": ("f_glob", {"deep": 1}),
     "glob_names": ("f_glob", {"mode": "names", "cfg": 1}),
+    "recycled_out": ("f_vol", {"log": "none"}),
+}
+# builds (restarts, no watching) that precede the watch session: here the plan ran again and
+# failed, so the step and its output are detached in the database when the watch session starts
+# with the repaired plan, which recycles and skips the step
+PRELUDES = {
+    "recycled_out": [("f_vol", {"log": "none"}), ("f_vol", {"log": "none", "broken": 1})],
 }
 # sequences over several watch phases: ("REBUILD",) asks for a rebuild in between, in both variants
 MULTI_PHASE = {
@@ -55,6 +62,7 @@ TARGETS = {
     "glob_missing": {"files": ["data/raw/a.txt", "data/raw/b.txt", "data/x.txt"], "dirs": ["data", "data/raw"]},
     "glob_cfg": {"files": ["cfg.txt", "data/a.txt", "data/c.txt"], "dirs": ["data"]},
     "glob_names": {"files": ["data/a.txt", "data/b.txt", "data/c.txt"], "dirs": ["data"]},
+    "recycled_out": {"files": ["out/deep/o.txt", "src.txt"], "dirs": ["out/deep", "out"]},
     "glob_deep": {"files": ["src/pkg/mod/a.txt", "src/pkg/mod/c.txt"], "dirs": ["src/pkg", "src/pkg/mod"]},
     "glob_tree": {"files": ["data/a.txt", "data/c.txt", "out/a.out"], "dirs": ["data", "out"]},
     "glob_pattern": {"files": ["data/a.txt", "data/c.txt", "out/b.out"], "dirs": ["data"]},
@@ -120,10 +128,22 @@ def apply_op(world, op, originals):
         raise ValueError(op)
 
 
-def watch_run(files, cfg, ops, prefix, during_build=False, mode="rebuild", eager=False):
+def watch_run(files, cfg, ops, prefix, during_build=False, mode="rebuild", eager=False, prelude=None):
     """Build in watch mode and apply ops; then either `rebuild` in the living director, or shut it
     down and start a new director on the same tree and database (mode="restart")."""
-    w = fresh_world(files, "c14w")
+    if prelude:
+        prev = None
+        for fam, knobs in prelude:
+            cur = getattr(projects, fam)(**knobs)
+            if prev is None:
+                w = fresh_world(cur, "c14w")
+            else:
+                hist.sync(w, prev, cur)
+            session(w, {"njob": cfg["njob"]})
+            prev = cur
+        hist.sync(w, prev, files)
+    else:
+        w = fresh_world(files, "c14w")
     state = {"i": 0, "stage": "ops", "fork": None}
 
     def env(sim):
@@ -267,13 +287,14 @@ def run_job(spec):
     for ops in spec["seqs"]:
         ops = [tuple(o) for o in ops]
         def run(prefix, ops=ops):
-            return watch_run(files, cfg, ops, prefix, spec["during_build"], eager=spec.get("eager", False))
+            return watch_run(files, cfg, ops, prefix, spec["during_build"], eager=spec.get("eager", False),
+                             prelude=PRELUDES.get(name))
 
         def visit(prefix, obs, ops=ops):
             ref = None
             if obs.fork is not None:
                 ref = watch_run(files, cfg, ops, obs.choices[: obs.fork], spec["during_build"], mode="restart",
-                                eager=spec.get("eager", False))
+                                eager=spec.get("eager", False), prelude=PRELUDES.get(name))
                 acc.evaluations += 1
                 if ref.fork != obs.fork:
                     acc.violation(f"C14|{name}|harness-fork-divergence", {"ops": ops, "a": obs.fork, "b": ref.fork}, None)
